@@ -574,9 +574,21 @@ def nd_ok(t, v, form):
     return True
 
 
+class Lens:
+    """constructor arguments that are the dynamic extents of an array (one positional argument each)"""
+
+    def __init__(self, lens):
+        self.lens = tuple(lens)
+
+    def __repr__(self):
+        return "Lens%r" % (self.lens,)
+
+
 def construct(t, arg, **kw):
     """Public constructor call.  Top-level unionrefs take (name, data) as two arguments."""
     cls = build(t)
+    if isinstance(arg, Lens):
+        return cls(*arg.lens, **kw)
     if t[0] == "U":
         if arg is None:
             return cls(**kw)
